@@ -134,7 +134,8 @@ def solve_one(job, timeout, workdir):
             return Result(ob, "unsat", sname, t_all, raw=out, smt_path=path, attempts=attempts)
         if status == "sat":
             return Result(ob, "sat", sname, t_all, model=parse_values(out, names), raw=out[:4000], smt_path=path, attempts=attempts)
-    return Result(ob, "unknown", "/".join(a[0] for a in attempts), t_all, raw=str(attempts), smt_path=path, attempts=attempts)
+    gaveup = any(st_ == "unknown" and secs < timeout * 0.5 for _, st_, secs in attempts)
+    return Result(ob, "gaveup" if gaveup else "timeout", "/".join(a[0] for a in attempts), t_all, raw=str(attempts), smt_path=path, attempts=attempts)
 
 def solve_all(obs, timeout=60, jobs=None, workdir=None):
     jobs = jobs or max(2, (os.cpu_count() or 4) - 2)
